@@ -37,27 +37,31 @@ HAND = {
     'C20': 'trailing 0xAA not kept; checksum test dropped; noise before a marker not trimmed',
 }
 STEER = {
-    "codec": "Ideas that have NOT been tried: a slip in a helper of nmea2000/utils.py for a rarely used type (date, time, duration, "
-             "float, bit lookup, indirect lookup, fixed / LZ / LAU strings, binary, 'PGN' typed fields); in nmea2000/message.py "
-             "(to_json / from_json, apply_preferred_units, get_field_by_id, __repr__); in the text parsers and writers of "
-             "decoder.py / encoder.py (timestamp column, separators, upper/lower-case hex, leading zeros, length column, direction "
-             "letter, whitespace); in header construction per wire format (priority bits, length nibble, extended-frame flag, "
-             "reserved bytes); at the extreme legal header values (priority 7, source 0/253/254, destination 0/254, data page 1, "
-             "PDU1/PDU2 border PGNs such as 0xEF00, 0xF000, 0x1EF00, 0x1F000, 0x1FFFF).",
-    "state": "Ideas that have NOT been tried: the order of steps inside decode (filter before / after reassembly, identity lookup "
-             "before / after filtering, dump before / after conversion, unit conversion applied to the stored vs the returned "
-             "object); the N-th occurrence of something (counter wrap after 8 messages, 32 frames, the 2nd message of a stream, "
-             "the 3rd source); clean-up that happens for one entry point but not another (decode_tcp / decode_usb / "
-             "decode_actisense_string / decode_yacht_devices_string / decode_basic_string); time (the 10-minute discovery "
-             "window boundary, timestamps, ttl); dictionary growth or deletion while iterating; objects shared between the "
-             "returned message and internal state.",
-    "async": "Ideas that have NOT been tried: timing constants and progressions (back-off reset after a success, the 2nd or 3rd "
-             "reconnection behaving differently from the 1st), per-connection initialisation of ONE client class (Waveshare "
-             "configuration packet, serial open, buffer reset), the network-map request task (start, cancel, restart on "
-             "reconnect), send() before connect() / after a failure / while reconnecting, close() before connect() or twice, "
-             "callbacks that are None or replaced at run time, a status or receive callback that raises or is slow exactly once, "
-             "the queue between reader and consumer (bounded size, ordering, task_done), the writer of an old connection used "
-             "after reconnecting, wait_closed / drain awaited or not.",
+    "codec": "Think about what a checker written from the property statement alone would probably NOT try, and aim there: a value "
+             "that is special only for ONE field type or ONE bit width (1-bit, 2-bit, 3-bit, 7-bit, 12-bit, 24-bit, 48-bit, 64-bit "
+             "fields; signed fields with an offset; fields whose resolution is not a power of ten; DATE 65534 / 65535; DURATION; "
+             "FLOAT infinities and NaN; STRING_FIX filled with 0x00 / 0xFF / '@'; empty and maximum-length LAU / LZ strings; "
+             "BINARY fields that are not a whole number of bytes or start at a bit offset that is not a multiple of 8); a "
+             "definition that is the LAST of its PGN in database order, has repeating fields, or has a field after a variable "
+             "length one; lookups with gaps, with an entry numbered 0, or whose names differ only in case or punctuation; "
+             "rounding (banker's rounding, float representation of x.5 steps, -0.0); Python int/float/bool/Decimal confusion; "
+             "the difference between a field's value and raw_value when only one of them is given.",
+    "state": "Think about what a checker written from the property statement alone would probably NOT try, and aim there: three "
+             "or more streams at once; a stream whose source, destination or PGN differs from another only in ONE component; the "
+             "same bytes arriving through two different entry points of one decoder; frame 0 arriving twice, or never; a message "
+             "longer than anything before it on the same stream; exactly 223 bytes / 32 frames; a frame counter above the "
+             "announced length; option combinations (include AND exclude lists given together, a list containing the same entry "
+             "twice or in two forms, an empty string or None in a list, numbers given as strings); claims from source 254 / 255 "
+             "/ 0; a NAME of all zeros or all ones; the same NAME from two sources and then one of them changing; the decoder "
+             "used after an exception escaped from it.",
+    "async": "Think about what a checker written from the property statement alone would probably NOT try, and aim there: TWO "
+             "faults in a row (a second fault while the first is being handled); a fault exactly while a callback, a drain() or "
+             "a back-off sleep is suspended; connect() called twice concurrently; send() racing with the reconnect; close() "
+             "racing with send() or with another close(); callbacks that call back INTO the client (send() or close() from "
+             "inside the receive or status callback); a receive callback replaced while running; an exception class that is a "
+             "subclass of the handled one (or a BaseException such as CancelledError / KeyboardInterrupt-like) ; data that "
+             "arrives in the same loop iteration as EOF; zero-length reads; the 5th or 10th retry (back-off growth and cap); "
+             "what is logged or counted versus what is done.",
 }
 GROUP = {**{f"C{i:02d}": "codec" for i in (1, 2, 5, 6, 7, 8, 9, 15, 17, 18)}, **{f"C{i:02d}": "state" for i in (3, 4, 10, 11, 16)},
          **{f"C{i:02d}": "async" for i in (12, 13, 14, 19, 20)}}
